@@ -88,7 +88,15 @@ func (w *World) answersStable() {
 		}
 		sc := hdrVals(d.GetHeaders(), "set-cookie")
 		if loc != c.Location || len(sc) != len(c.SetCookie) || (len(sc) > 0 && sc[0] != c.SetCookie[0]) {
-			w.violate("C13", "answer-changed-after-it-was-returned", fmt.Sprintf("check #%d: Location/Set-Cookie of the answer read %q / %v when it was returned and %q / %v at the end of the run", c.N, c.Location, c.SetCookie, loc, sc))
+			detail := fmt.Sprintf("check #%d: Location/Set-Cookie of the answer read %q / %v when it was returned and %q / %v at the end of the run", c.N, c.Location, c.SetCookie, loc, sc)
+			w.violate("C13", "answer-changed-after-it-was-returned", detail)
+			// the answer on the wire is the changed one: what it no longer says is judged under the property concerned
+			switch c.Class {
+			case "logout":
+				w.violate("C09", "logout-answer-changed-after-it-was-returned", detail)
+			case "redirect-idp":
+				w.violate("C05", "login-redirect-changed-after-it-was-returned", detail)
+			}
 			return
 		}
 	}
